@@ -268,6 +268,20 @@ pub fn gen_rcv(r: &mut Rng, thorough: bool, cx: &mut Ctx) {
             }
         }
     }
+    // a large packet delivered, then a two-frame packet left half-received across a poll (memory must follow the packet in flight, not the previous one)
+    for link in 0..3u64 {
+        for &big in &[700usize, 1800, 4200] {
+            let mut toks = vec![];
+            let pb = gen_packet(r, big); packet_tokens(link, &pb, &mut toks);
+            let small = gen_packet(r, 12); let fs = frames_of(&small);
+            if fs.len() == 2 { frame_tokens(link, &fs[0], &mut toks); toks.push(wb(link)); toks.push(wb(link)); frame_tokens(link, &fs[1], &mut toks); }
+            let p1 = gen_packet(r, 5); let p2 = gen_packet(r, 20);
+            let np = toks.len();
+            packet_tokens(link, &p1, &mut toks); packet_tokens(link, &p2, &mut toks);
+            let mut meta = vec![count_tokens(link, &toks[np..])]; show_packet(&p1, &mut meta); show_packet(&p2, &mut meta);
+            emit_rcv(cx, link, &meta, &toks);
+        }
+    }
     // device read faults in the middle of link frames (outside C06's 'whole link frames'; C19 must still hold): meta is empty
     for link in 1..3u64 {
         for _ in 0..(if thorough { 3000 } else { 150 }) {
